@@ -41,6 +41,19 @@ for pid in sorted(P.PROPS):
     c = P.PROPS[pid]
     fams = ", ".join(f"{f['mode']}:{f['name']} {f.get('quick')}/{f.get('thorough', f.get('quick'))}" for f in c.get("families", []))
     out.append(f"| {pid} | {', '.join(c['lean_props'])} | {fams} |")
+out.append("\n#### Theorems per claimed property (names from `statements.expected/<id>.json`, the locked statements) and what stays assumed\n")
+out.append("`_partial` = the full statement is visible in the file and only the named part is proved; names ending in a defect id or `witness` are negation witnesses (by `decide`) for the pinned, unrepaired variant.\n")
+out.append("| id | theorems | modelled, not verified / assumed (from `tools/props.py`) |\n|---|---|---|")
+for pid in sorted(P.PROPS):
+    if pid not in claimed: continue
+    c = P.PROPS[pid]
+    try:
+        st = json.load(open(os.path.join(ROOT, "statements.expected", pid + ".json")))
+    except Exception:
+        st = {}
+    names = ", ".join("`" + k.split(".")[-1] + "`" for k in sorted(st))
+    ass = "; ".join(str(a).replace("|", "/").replace("\n", " ") for a in c.get("assumptions", []))
+    out.append(f"| {pid} | {len(st)}: {names} | {ass} |")
 text = "\n".join(out) + "\n"
 p = os.path.join(ROOT, "DESIGN.md")
 s = open(p).read()
